@@ -224,7 +224,7 @@ impl G<'_> {
         }
     }
     fn end(&mut self) -> End {
-        let k = self.r.below(self.n.max(self.m) as u64 + 2) as u8;
+        let k = if self.r.chance(1, 10) { 250 + self.r.below(6) as u8 } else { self.r.below(self.n.max(self.m) as u64 + 2) as u8 };
         match self.r.below(if self.p.forget { 16 } else { 14 }) {
             0 | 1 => End::Exhaust,
             2 | 3 | 4 => End::Drop,
@@ -433,6 +433,7 @@ impl G<'_> {
                         flip_bit: if faults && self.r.chance(1, 3) { Some(self.r.below(400) as u16) } else { None },
                         ser_fail_at: if faults && self.r.chance(1, 3) { Some(self.r.below(20) as u16) } else { None },
                         de_fail_at: if faults && self.r.chance(1, 3) { Some(self.r.below(10) as u16) } else { None },
+                        dup_at: if faults && self.r.chance(1, 2) { Some(self.r.below(40) as u16) } else { None },
                     },
                 }
             }
